@@ -337,6 +337,8 @@ func (h *httpServerHandler) handlePostRequest(ctx context.Context, w http.Respon
 			sessionID = session.GetID()
 		}
 		notificationSender := newSSENotificationSender(w, flusher, sessionID)
+		// One event-id generator per stream: notifications and the final response must not reuse ids.
+		notificationSender.sseWriter = sseResponder.sseWriter
 		reqCtx := withNotificationSender(ctx, notificationSender)
 		if session != nil {
 			reqCtx = setSessionToContext(reqCtx, session)
